@@ -3,4 +3,4 @@ Require Import NixV.Base.Prelude NixV.Gen.GenVersion NixV.Gen.GenTables NixV.Fil
 Extraction Language OCaml.
 Extraction "model_C10.ml" FormatVersion_op_eq FormatVersion_op_lt FormatVersion_op_ne FormatVersion_op_gt
   FormatVersion_op_le FormatVersion_op_ge FormatVersion_canRead FormatVersion_canWrite FormatVersion_op_index
-  open_file good_header my_version lexltb FILE_FORMAT.
+  open_file good_header my_version lexltb FILE_FORMAT eq_specb canRead_specb gate_specb.
